@@ -221,7 +221,7 @@ def words(alphabet, maxlen):
 
 class C16(Spec):
     id = 'C16'; engine = 'str'; harness = 'h_str'; driver = 'drv_str'
-    generators = ('Str',)
+    generators = ('Str', 'Hash')
     harness_timeout = 300
     technique = ('Lean 4 proof: a buffer-level model of src/String.c (the allocation itself, every libc call with explicit offsets, an access log) '
                  'refines the abstract byte string for every history; allocation sizes and the memmove count regenerated from the source each run; '
@@ -246,10 +246,23 @@ class C16(Spec):
                   'After e60e6ec / a626877: rem of an operand without a C string raises ClassError and changes nothing (C16_rem_argument), a format libc rejects '
                   'returns a negative value and leaves the String untouched, inside print_to_with FormatError leaves after the steps before it '
                   '(C16_rejected_format); the old behaviours are refuted on explicit old variants of the model functions. '
-                  'Reading at a position (scan_from -> String_Format_From) sees exactly the abstract string from pos on (C16_read_at_position).')
+                  'Reading at a position (scan_from -> String_Format_From) sees exactly the abstract string from pos on (C16_read_at_position). '
+                  'Operands: histories are over AOp, whose operands are by value, the target itself, or a view into the target\'s buffer, and every step '
+                  'takes the allocator\'s choice (realloc moves the block or not); C16_refines_bytes / C16_terminated / C16_holds_for_current_source hold '
+                  'under the explicit hypothesis AOp.NoAlias for every allocator behaviour; for aliased operands rem / mem / cmp are by value '
+                  '(C16_alias_partial) and assign / concat / append / a %s write are undefined for both allocator behaviours (known finding '
+                  'KF-C16-alias-operand; C16_alias_refuted, C16_alias_operand_refuted, C16_alias_always_undefined; repair proved in C16_alias_repaired). '
+                  'hash: C16_hash_is_murmur — String_Hash after any history is MurmurHash64A (seed 0xCe110) over exactly the bytes of the abstract '
+                  'string, by composition with engine hash\'s (C10) proof about hash_data; the harness prints the library\'s hash value and the driver '
+                  'the model\'s.')
     level_note = ('Trusted: Lean kernel; axioms propext/Quot.sound/Classical.choice at most; translate/g_str.py; the harness/driver comparison (testing); '
-                  'libc str*/mem*/realloc/vsnprintf are modelled by their ISO C specification, not verified; MurmurHash is an opaque function of the bytes '
-                  '(C10); size_t is modelled as Nat (no allocation near SIZE_MAX). Aliased operands (op(s, s)) and pos > len / pos < 0 are outside the statement.')
+                  'libc str*/mem*/realloc/vsnprintf are modelled by their ISO C specification, not verified; hash_data is engine hash\'s model (C10: '
+                  'MurmurHash64A), composed here in C16_hash_is_murmur and compared value by value with the library; size_t and the int arithmetic of '
+                  'pos/size/return value are modelled as Nat (no allocation near SIZE_MAX, no text beyond INT_MAX). The history theorems carry the '
+                  'explicit decidable hypothesis AOp.NoAlias (no operand points into the target\'s own allocation); the excluded region is known '
+                  'finding KF-C16-alias-operand: modelled (Src.self / Src.view, realloc moving or not), proved undefined in all of it '
+                  '(C16_alias_always_undefined), refuted on witnesses (C16_alias_refuted, C16_alias_operand_refuted), and the proposed repair is '
+                  'proved to meet the full statement (C16_alias_repaired). pos > len / pos < 0 are outside the statement.')
     rule = ('op files over up to 4 heap Strings: (a) exhaustive: every target over {a,b} up to length 4 (quick) / 5 (thorough) x every operand up to '
             'length 3 / 4 for rem, mem, cmp, eq; (b) random histories over the alphabets {a,b}, {a,b,c}, printable, all 255 byte values, operands chosen '
             'relative to the current text: empty, equal, at the start, middle, end, repeated/overlapping, near miss, longer than the target, absent; '
@@ -257,18 +270,32 @@ class C16(Spec):
             '{literal, %%, %s, %d, %li, %c, %$ of a Tuple} at pos 0 / inside / at len, and in (b),(c) random print_to_with formats (literal runs, %%, '
             '%s %c %d %i %u %x %X %o with flags, width, precision, l, %$ of Int / String / nested Tuples, several in sequence, unused extra arguments, '
             'the empty format), show_to, and scan_from of a word at a position. After every op the whole allocation (size, all bytes) is compared '
-            'with the Lean model and the text with a libc reference. non-trivial item = a mutating op on a live String; distinct = distinct '
+            'with the Lean model and the text with a libc reference; (f) rem / mem / cmp with the target itself and with views $S(c_str(s)+k) into it '
+            '(forked child; by-value libc reference); the hash VALUE is compared with the model of hash_data. non-trivial item = a mutating op on a live String; distinct = distinct '
             '(op text, resulting dump) pairs.')
     trusted_base = ('translate/g_str.py (regex/token extractor over src/String.c, and over print_to_with / the Show instances in src/Show.c, Num.c, Tuple.c)',
                     'the scanner of print_to_with (which format_to calls a format produces) is C14\'s subject; here it is the functional parser Cello.Str.parseFmt, '
                     'tied to the code by the correspondence and by the extracted strchr set',
                     'harness/h_str.c + lean/Driver/Str.lean (correspondence is testing); the harness routes the library\'s realloc through a wrapper that fills added bytes with 0xA5',
-                    'libc (strlen strcpy strcat strstr strcmp memmove memset realloc calloc vsnprintf vsprintf) modelled by its specification',
+                    'libc (strlen strcpy strcat strstr strcmp memmove memset realloc calloc vsnprintf vsprintf) modelled by its specification; for operands inside the '
+                    'target\'s allocation: ISO C 7.22.3.5 (realloc frees the old block when it moves), 7.24.2.3 / 7.24.3.1 / 7.21.6.6 (strcpy, strcat, vsprintf between '
+                    'overlapping objects are undefined)',
+                    'lean/Cello/Hash.lean + CelloGen/Hash.lean (engine hash, C10): the model of hash_data that C16_hash_is_murmur composes with, imported read-only',
+                    'C `int` (pos, size, return values) and `size_t` as Nat; the preprocessor branch taken (neither CELLO_WINDOWS nor CELLO_MAC) is the one g_str.py extracts',
                     'AddressSanitizer reports the exact requested size of an allocation and every out-of-bounds access')
-    assumptions = ('operands are C strings passed by value (no NUL, not the target itself): aliased calls op(s, s) are outside the property (probed and reported only)',
+    assumptions = ('operands are C strings (no NUL); generated histories pass them by value (another object, never the target or a view into its buffer): '
+                   'assign / concat / append / print_to "%s" with an operand inside the target\'s own allocation is known finding KF-C16-alias-operand '
+                   '(witness corpus/kf_c16_alias.ops, modelled, never generated); aliased rem / mem / cmp make no realloc and ARE generated and checked by value; '
+                   'aliased mutators on an EMPTY target (one NUL copied onto itself: undefined on paper only) are not run',
                    'formatted writes at 0 <= pos <= len; pos > len is modelled (text unchanged) but outside the property; negative pos is undefined behaviour and never generated',
-                   'lengths up to 4096 in the correspondence (theorems have no bound); no allocation failure; size_t arithmetic does not wrap',
-                   'the portable branch of String_Format_To (not CELLO_WINDOWS / CELLO_MAC); "libc rejects the format" is exercised with %lc of U+10FFFF in the C locale',
+                   'lengths up to 4096 in the correspondence (theorems have no bound); no allocation failure; size_t arithmetic does not wrap; '
+                   '`int pos`, `int size = vsnprintf(…)`, the `int` returned by format_to / print_to and `pos + size + 1` computed in int before it is widened '
+                   'for realloc (String.c String_Format_To, Show.c print_to_with) are modelled as Nat: no text, position or formatted fragment beyond INT_MAX (2^31-1)',
+                   'only the portable branch of String_Format_To is modelled and exercised (#else of CELLO_WINDOWS / CELLO_MAC). Not modelled: the CELLO_WINDOWS '
+                   'branch (_vscprintf, no `size < 0` early return) and the CELLO_MAC branch (vasprintf into a temporary, `s->val[pos] = 0; strcat(s->val, tmp)`, '
+                   'returns size) — the Mac branch differs observably for pos > len (it appends after the OLD terminator instead of leaving the text unchanged; '
+                   'outside the property) and, formatting before the realloc, does not have the aliasing defect of the portable one; '
+                   '"libc rejects the format" is exercised with %lc of U+10FFFF in the C locale',
                    'print_to_with on a String: formats of the grammar literal | %% | %[-0+]*[width][.prec][l]conv with conv in s c d i u x X o $ and one argument of the '
                    'right class per specification (Int, String, Tuple of these); %c never prints NUL; floats, %p and Array/List arguments (their text contains an '
                    'address) are left to C14; too few arguments (FormatError after a partial write, KF-C14-partial-write) is never generated')
@@ -316,11 +343,23 @@ class C16(Spec):
             # start long
             x = g.rtext(rng.choice([1000, 4000, 4096])); g.emit(f'new 0 {hx(x)}'); g.txt[0] = x
             cs.append(Case(f'long{i}', g.run(nops)))
-        # (f) aliased calls: probed in a forked child, reported on I lines only
-        cs.append(Case('alias', [f'alias {w} {hx(t)}' for w in ('concat', 'append', 'assign', 'rem', 'mem', 'cmp') for t in (b'', b'ab', b'a' * 40)]))
+        # (f) operands that point into the target's own buffer, for the calls that make no realloc (rem, mem, cmp): the target itself
+        # and views at the start / inside / at the terminator, incl. a suffix that also occurs earlier.  The aliased assign / concat /
+        # append / print_to are known finding KF-C16-alias-operand (witness corpus/kf_c16_alias.ops) and are never generated.
+        texts = [b'', b'a', b'ab', b'abab', b'aaa', b'abcabc', b'hello world', b'a' * 40]
+        for i in range(4 if quick else 40):
+            al = self.ALPHABETS[i % len(self.ALPHABETS)]
+            texts.append(bytes(rng.choice(al) for _ in range(rng.choice([3, 7, 20, 100, 500]))))
+        lines = []
+        for t in texts:
+            offs = sorted({0, 1, len(t) // 2, max(0, len(t) - 1), len(t)} & set(range(len(t) + 1)))
+            for w in ('rem', 'mem', 'cmp'):
+                lines.append(f'alias {w} self {hx(t)}')
+                lines += [f'alias {w} v{o} {hx(t)}' for o in offs]
+        cs.append(Case('alias_readonly', lines))
         return cs
     def nontrivial_items(self, case, c_out, m_out):
-        ops = [l for l in case.lines if l and not l.startswith('#') and not l.startswith('alias')]
+        ops = [l for l in case.lines if l and not l.startswith('#')]
         obs = core.lines_with('O ', c_out)
         items = set()
         for op, o in zip(ops, obs):
